@@ -426,7 +426,11 @@ def _one_case(ft, data, by_path, tmpdir, limit_s):
 
     before = set(os.listdir("/proc/self/fd"))
     old = signal.signal(signal.SIGALRM, on_alarm)
-    signal.setitimer(signal.ITIMER_REAL, limit_s)
+    old_v = signal.signal(signal.SIGVTALRM, on_alarm)
+    # the limit is CPU time of this process (a busy machine must not look like a hang); a wall
+    # clock alarm twelve times as long catches a loader that blocks without computing
+    signal.setitimer(signal.ITIMER_VIRTUAL, limit_s)
+    signal.setitimer(signal.ITIMER_REAL, limit_s * 12)
     t0 = time.time()
     try:
         with warnings.catch_warnings():
@@ -448,8 +452,10 @@ def _one_case(ft, data, by_path, tmpdir, limit_s):
             except BaseException as ex:  # noqa: BLE001
                 outcome = "NON-ORDINARY %s" % type(ex).__name__
     finally:
+        signal.setitimer(signal.ITIMER_VIRTUAL, 0)
         signal.setitimer(signal.ITIMER_REAL, 0)
         signal.signal(signal.SIGALRM, old)
+        signal.signal(signal.SIGVTALRM, old_v)
     dt = time.time() - t0
     import gc
 
@@ -514,7 +520,7 @@ def fuzz(tier, seed):
                     outcome, dt, leaked = _one_case(ft, d, by_path, tmpdir, 10.0)
                     if outcome == "TIMEOUT":
                         timeouts += 1
-                        fail("%s:does-not-finish-within-10s" % name, name, vname)
+                        fail("%s:does-not-finish-within-10s-of-cpu-time" % name, name, vname)
                     elif outcome.startswith("NON-ORDINARY"):
                         fail("%s:%s" % (name, outcome), name, vname)
                     elif outcome == "raised MemoryError":
@@ -689,7 +695,7 @@ def structured(tier, seed):
         outcomes = {}
         restarts = 0
         while pending and restarts < 40:
-            p = subprocess.run([sys.executable, os.path.join(verif, "tools", "c20_driver.py")], input="".join("%s\t%s\t%s\n" % (n, ft, fp) for n, ft, fp, _ in pending), capture_output=True, text=True, env=env, timeout=30 * len(pending) + 120, cwd=tmpdir)
+            p = subprocess.run([sys.executable, os.path.join(verif, "tools", "c20_driver.py")], input="".join("%s\t%s\t%s\n" % (n, ft, fp) for n, ft, fp, _ in pending), capture_output=True, text=True, env=env, timeout=150 * len(pending) + 300, cwd=tmpdir)
             started = None
             for line in p.stdout.splitlines():
                 if line.startswith("START "):
@@ -713,7 +719,7 @@ def structured(tier, seed):
             if oc.startswith("INTERPRETER DIED"):
                 fail("%s:interpreter-crashed" % name, oc)
             elif oc == "TIMEOUT":
-                fail("%s:does-not-finish-within-10s" % name, oc)
+                fail("%s:does-not-finish-within-10s-of-cpu-time" % name, oc)
             elif oc.startswith("NON-ORDINARY"):
                 fail("%s:%s" % (name, oc), oc)
             elif oc == "raised MemoryError":
